@@ -104,6 +104,52 @@ def _one_shape(args):
     return outs
 
 
+def repointed_then_deleted(trace):
+    """The history of the recorded finding C16 'flush order: delete of a re-pointed dependent after its old parent':
+    within one flush window a B object whose database row refers to A[p] is re-pointed (or unlinked), then A[p] is
+    deleted, then the B object itself is deleted. Returns True iff the behaviour contains that pattern."""
+    init = trace[0].get('init', {}) if trace and isinstance(trace[0], dict) else {}
+    dbref = {int(k): (v[1] if isinstance(v, (list, tuple)) else 0) for k, v in init.get('B', {}).items()}
+    moved, parent_gone = set(), set()
+    for t in trace[1:]:
+        op, e, k, x, y, out = t.get('op'), t.get('e'), t.get('k'), t.get('x'), t.get('y'), t.get('out')
+        if out != 'ok' and not t.get('final'):
+            if op in ('Flush', 'Commit', 'End'):
+                pass
+            continue
+        if op in ('Flush', 'Commit', 'End', 'EndExc', 'Rollback', 'Begin'):
+            if op in ('EndExc', 'Rollback', 'Begin'):
+                moved, parent_gone = set(), set()
+            elif out == 'ok':
+                for b in list(dbref):
+                    pass
+                moved, parent_gone = set(), set()      # what was pending is in the database now (refs unknown: stop tracking)
+                dbref = {}
+            continue
+        if op == 'SetRef' and dbref.get(k) and x != dbref[k]:
+            moved.add(k)
+        elif op == 'SetMany' and dbref.get(k) and y != dbref[k]:
+            moved.add(k)
+        elif op in ('CollSet', 'CollAdd'):
+            members = [b for b in (1, 2) if x & b] if op == 'CollSet' else [x]
+            for b, p in dbref.items():
+                if p and p != k and b in members:
+                    moved.add(b)
+                if op == 'CollSet' and p == k and b not in members:
+                    moved.add(b)
+        elif op in ('CollRemove', 'CollClear'):
+            for b, p in dbref.items():
+                if p == k and (op == 'CollClear' or b == x):
+                    moved.add(b)
+        elif op == 'Delete' and e == 'A':
+            for b in moved:
+                if dbref.get(b) == k:
+                    parent_gone.add(b)
+        elif op == 'Delete' and e == 'B' and k in parent_gone:
+            return True
+    return False
+
+
 def signature(prop, shape, category, what):
     """Normal form of a disagreement: property, relationship shape, category, call and outcomes (no data values)."""
     first = what.split('\n')[0]
@@ -178,7 +224,12 @@ def run(ctx, prop, shapes=None, strategies=('default',), focus=None):
                 owner = 'C23'
             if category == 'crash':
                 owner = prop     # an unexpected exception inside pony concerns every property of the session model
-            if owner == prop:
+            if category == 'crash' and 'FOREIGN KEY constraint failed' in what and repointed_then_deleted(trace):
+                # recorded finding (C16): the signature names the history, not the shape it happened to be met in
+                ctx.mismatch('%s:flush-order:repointed-dependent-deleted-after-its-old-parent' % prop,
+                             'shape %s, strategy %s: %s' % (r['shape'], r['strategy'], what),
+                             {'shape': r['shape'], 'strategy': r['strategy'], 'trace': trace, 'what': what})
+            elif owner == prop:
                 ctx.mismatch(signature(prop, r['shape'], category, what),
                              'shape %s, strategy %s: %s' % (r['shape'], r['strategy'], what),
                              {'shape': r['shape'], 'strategy': r['strategy'], 'trace': trace, 'what': what})
